@@ -85,6 +85,7 @@ fn alpha(cfg: &Cfg) -> Vec<Op> {
         (None, None),
         (Some(1), Some(rows.saturating_sub(1))),
         (Some(2), Some(rows)),
+        (Some(2), Some(rows.saturating_sub(1))),
         (Some(2), None),
         (Some(2), Some(2)),
         (Some(rows), Some(1)),
@@ -106,8 +107,8 @@ macro_rules! parts {
             name: "moves-lockstep",
             sys: $sys,
             cfgs: match tier {
-                Tier::Quick => cfgs(&[(2, 2), (3, 3), (2, 3), (9, 2)], &[None]),
-                Tier::Thorough => cfgs(&[(1, 1), (1, 2), (2, 1), (2, 2), (3, 2), (2, 3), (3, 3), (4, 3), (9, 2)], &[None]),
+                Tier::Quick => cfgs(&[(2, 2), (3, 3), (2, 4), (9, 2)], &[None]),
+                Tier::Thorough => cfgs(&[(1, 1), (1, 2), (2, 1), (2, 2), (3, 2), (2, 3), (3, 3), (4, 3), (2, 4), (2, 5), (9, 2)], &[None]),
             },
             alphabet: &alpha,
             depth: tier.pick(4, 5),
